@@ -465,7 +465,8 @@ def dumpCall (ext : Bool) (g : Graph) (b : BuildOut) (n : Nat) : String :=
   let spec := g.provs.getD nd.prov default
   let argS := (b.nodeArgs.getD n []).map (fun a =>
     let p := b.params.getD a.param default
-    s!"{if p.isArg then "a" else "v"}{p.node}.{p.group}{if a.isWait && p.withChan then "w" else ""}")
+    if ext && p.isArg then s!"a{p.node}:{(g.nodes.getD p.node default).ty}"
+    else s!"{if p.isArg then "a" else "v"}{p.node}.{p.group}{if a.isWait && p.withChan then "w" else ""}")
   let retS := (b.nodeRets.getD n []).map (fun r =>
     let p := b.params.getD r default
     s!"{if p.refs == 0 then "_" else "r"}{if p.withChan then "c" else ""}")
